@@ -70,7 +70,7 @@ FLAV_FLAGS = {
 def build_harness(name, flavour, srcs, extra=None, libs=None):
     """Compile /verif/harness/<srcs> against librime built from the working tree."""
     bdir = build_librime(flavour)
-    odir = os.path.join(BUILD, "harness", flavour)
+    odir = os.path.join(BUILD, "harness", os.path.basename(bdir))
     os.makedirs(odir, exist_ok=True)
     out = os.path.join(odir, name)
     dep = out + ".d"
